@@ -106,6 +106,8 @@ def run_case(ctx, mon, cfg_id, terms, prods, inputs_spec=None, rng=None, any_spe
         except llparser.GrammarError as err:
             ctx.count("ctor_grammar_error(judged by C03)")
             ctor_error = (smart, type(err).__name__, str(err)[:150])
+    if parsers and cfg.kwargs.get('span_matchers'):
+        llmon.build_decoy(cfg)       # (another parser with other multi-line tokens is built before these are used)
     if len(parsers) == 1 and ctor_error is not None:
         # the grammar is fine for one factorization setting and rejected for the other
         ctx.violation("grammar-rejected-for-one-factorization-setting-only",
